@@ -68,6 +68,7 @@ void FS::reset() {
     rpolicy_by_path.clear();
     fopen_fail_k = 0;
     fopen_w_calls = 0;
+    unopenable.clear();
 }
 
 void FS::close_all_leaked() {
@@ -100,6 +101,7 @@ std::vector<std::string> FS::list() const {
 }
 
 int FS::make_fd(const std::string& name) {
+    SIM_IGNORE;
     int fd = (int)syscall(SYS_open, "/dev/null", O_RDWR);
     if (fd < 0 || fd >= 65536) throw sim::Failure("SimFS: cannot reserve a descriptor");
     OpenFile of;
@@ -117,6 +119,7 @@ int FS::make_fd(const std::string& name) {
 }
 
 std::shared_ptr<Inode> FS::fd_inode(const std::string& name) const {
+    SIM_IGNORE;
     auto it = dir.find("fd:" + name);
     return it == dir.end() ? nullptr : it->second;
 }
@@ -246,7 +249,7 @@ static FILE* sim_fopen(const char* path, const char* mode, bool is64) {
     std::shared_ptr<Inode> ino;
     if (wr) {
         F.fopen_w_calls++;
-        if (F.fopen_fail_k && F.fopen_w_calls == F.fopen_fail_k) {
+        if ((F.fopen_fail_k && F.fopen_w_calls == F.fopen_fail_k) || F.unopenable.count(path)) {
             if (F.ctr) F.ctr->add("fault_fired.fopen_fail");
             if (F.log) F.log->ev(std::string("OPEN_W-FAIL ") + path);
             errno = EACCES;
